@@ -14,6 +14,7 @@ import (
 	"github.com/gcash/bchutil/bech32"
 
 	al "verif/harness/cmd/c01/addrlib"
+	"verif/harness/cmd/c01/addrlib/envrun"
 	"verif/harness/internal/vh"
 )
 
@@ -504,6 +505,8 @@ func main() {
 	rep.Rule = "structured generators (exhaustive small scopes + random + BIP173 vectors + mutations); a case is non-trivial when it passes the outer validation layer (non-empty alphabet string / >=5 decoded bytes / valid bech32 / in-range regrouping); distinct by input"
 	cases = vh.NewCases(cfg, "Run.Run_C07", 400)
 	rng := vh.NewRNG(cfg.Seed)
+	// environment monitors (round 3): tables, purity on error paths with large inputs and spare capacity; plain children
+	env := envrun.Start(cfg, rep)
 
 	// --- SHA-256 validation of the Coq implementation against crypto/sha256
 	r := rng.Fork("sha")
@@ -942,6 +945,7 @@ func main() {
 		}
 	}
 
+	env.Finish()
 	rep.Cases = cases.Len()
 	rep.Extra["duplicate_cases_dropped"] = cases.Dups
 	_, err := cases.Flush()
